@@ -20,6 +20,15 @@ The generator draws values through the hook's shard map so that values collide i
 shard; it reports its own distribution.  A mismatching case is shrunk (drop operations
 while the mismatch persists).
 
+Profile *panic* (C22, and C08/C09 thorough): the event callback / the user `Hash` and
+`PartialEq` of the interned field are armed to panic while slots are recycled; every
+`get`/`intern` runs under catch_unwind.  Hook H5b (`op=commit|touch|abort` records) lets the
+replay follow a call that unwound: the model step (Model.intern_cut) is applied at the
+commit record, the final record of a completed call is a confirmation.  `value_oracle`
+checks the implementation alone (no model, no hook): every completed request returns the
+from-scratch value, handles read back their value, no two values share a handle within a
+revision, no panic but the injected ones.
+
 Nothing here stands in for a theorem: this validates model-vs-code agreement only.
 
 Stand-alone:  python3 checks/intern_diff.py [--seed N] [--tier quick|thorough] [--build]
@@ -196,7 +205,7 @@ def parse_harness(out):
         tag = w[0]
         if tag == "OP":
             cur = {"text": w[1].split(" ", 1)[1], "evs": [], "recs": [], "rets": [],
-                   "prets": [], "rev": None}
+                   "prets": [], "rev": None, "panics": [], "faults": []}
             res.append(cur)
         elif cur is None:
             continue
@@ -205,7 +214,13 @@ def parse_harness(out):
         elif tag == "REC":
             cur["recs"].append(dict(kv.split("=", 1) for kv in w[1].split() if "=" in kv))
         elif tag == "RET":
-            cur["rets"].append(w[1].split())
+            f = w[1].split()
+            if f[0] == "panic":
+                cur["panics"].append((f[1], " ".join(f[2:])))
+            else:
+                cur["rets"].append(f)
+        elif tag == "FAULT":
+            cur["faults"].append(w[1])
         elif tag == "PRET":
             cur["prets"].append(w[1].split())
         elif tag == "REV":
@@ -218,17 +233,59 @@ def _lst(s):
     return s.split(",") if s else []
 
 
+CONFIRM_FIELDS = ("path", "shard", "hash", "idx", "gen", "stamp", "lia_after", "dur_after",
+                  "queue", "lru", "rev")
+
+
+def classify_records(recs):
+    """Hook H5b pairing inside one harness operation -> list of (kind, record, other) in trace
+    order:
+      I  a completed intern_id, replayed at this position (the commit record when there is one,
+         `other` = its later final record; else the final record itself, `other` = None)
+      C  the final record of a call already replayed at its commit record (`other` = that one)
+      U  a call that unwound after its commit (cold, reuse) or touch (fast) record
+      A  a call that unwound before any write but revision_queue.record (abort record)
+      M  maybe_changed_after
+    A `touch` record followed by the final record of the same call is dropped (the final
+    fast-path record describes the whole call)."""
+    out, confirm = [], {}
+    for i, r in enumerate(recs):
+        op = r.get("op")
+        if i in confirm:
+            out.append(("C", r, confirm[i]))
+        elif op == "mca":
+            out.append(("M", r, None))
+        elif op == "abort":
+            out.append(("A", r, None))
+        elif op == "intern":
+            out.append(("I", r, None))
+        elif op in ("commit", "touch"):
+            j = next((j for j in range(i + 1, len(recs)) if recs[j].get("t") == r.get("t")), None)
+            f = recs[j] if j is not None else None
+            paired = (f is not None and f.get("op") == "intern" and f.get("ing") == r.get("ing")
+                      and f.get("idx") == r.get("idx") and f.get("path") == r.get("path"))
+            if paired and op == "touch":
+                continue
+            if paired:
+                confirm[j] = r
+                out.append(("I", r, f))
+            else:
+                out.append(("U", r, None))
+    return out
+
+
 def to_replay(pops, hashval=None):
-    """Replay script + bookkeeping: for each emitted line, (op index, record kind, ing)."""
+    """Replay script + bookkeeping: for each emitted line, (op index, record kind, ing, rec)."""
     lines, meta = [], []
     seen_ing, valid, handle_val, ty_ing = {}, {}, {}, {}
     stats = {"reuse": 0, "fast": 0, "cold": 0, "mca_unchanged": 0, "mca_changed": 0,
              "mca_refresh": 0, "pinned_slot": 0, "outside_stamp": 0, "never_stamp": 0,
-             "immortal_records": 0, "reads": 0, "par_ops": 0, "par_races": 0}
+             "immortal_records": 0, "reads": 0, "par_ops": 0, "par_races": 0,
+             "commit_records": 0, "unwound_reuse": 0, "unwound_cold": 0, "unwound_fast": 0,
+             "aborted": 0}
     api_errors = []
     for oi, op in enumerate(pops):
-        last_intern = {}
-        for r in op["recs"]:
+        for kind, r, other in classify_records(op["recs"]):
             k = int(r["ing"])
             if k not in seen_ing:
                 seen_ing[k] = r["revisions"]
@@ -237,24 +294,45 @@ def to_replay(pops, hashval=None):
             if r["name"] in NAME_TO_TY:
                 ty_ing[NAME_TO_TY[r["name"]]] = k
             q = " ".join(_lst(r["queue"]))
+            if kind == "A":
+                lines.append("A %d %s Q %s E" % (k, r["rev"], q))
+                meta.append((oi, "A", k, r))
+                stats["aborted"] += 1
+                continue
             lru = " ".join(_lst(r["lru"]))
-            if r["op"] == "intern":
+            lia = None
+            if "lia_after" in r:
+                lia = "-1" if r["lia_after"] == REV_MAX else r["lia_after"]
+            if kind == "C":
+                diff = [f for f in CONFIRM_FIELDS if r.get(f) != other.get(f)]
+                if diff:
+                    api_errors.append(
+                        "op %d: the slot at the commit point of intern_id is not the slot the call "
+                        "reports at its end: %s" % (oi, ", ".join(
+                            "%s %s -> %s" % (f, other.get(f), r.get(f)) for f in diff)))
+                lines.append("C %d %s %s %s %s %s Q %s L %s %s E" % (
+                    k, r["rev"], r["idx"], r["gen"], lia, r["dur_after"], q, r["shard"], lru))
+                meta.append((oi, "C", k, r))
+            elif kind in ("I", "U"):
                 key = (k, r["hash"])
                 if key not in valid:
                     valid[key] = len(valid) + 1
                 vid = valid[key]
                 stamp = "-1" if r["stamp"] == "out" else r["stamp"][1:]
                 path = {"fast": "0", "cold": "1", "reuse": "2"}[r["path"]]
-                lia = "-1" if r["lia_after"] == REV_MAX else r["lia_after"]
-                lines.append("I %d %s %d %s %s %s %s %s %s %s %s Q %s L %s E" % (
-                    k, r["rev"], vid, r["shard"], stamp, r["idx"], path, r["idx"], r["gen"],
+                lines.append("%s %d %s %d %s %s %s %s %s %s %s %s Q %s L %s E" % (
+                    kind, k, r["rev"], vid, r["shard"], stamp, r["idx"], path, r["idx"], r["gen"],
                     lia, r["dur_after"], q, lru))
-                meta.append((oi, "I", k, r))
-                val = r.get("val")
+                meta.append((oi, kind, k, r))
+                val = r.get("val") or (other or {}).get("val")
                 if val is None and hashval and r["name"] in NAME_TO_TY:
                     val = hashval.get((NAME_TO_TY[r["name"]], r["hash"]))
                 handle_val[(k, r["idx"], r["gen"])] = (vid, val)
-                last_intern[k] = r
+                if kind == "U":
+                    stats["unwound_" + r["path"]] += 1
+                    continue
+                if r["op"] == "commit":
+                    stats["commit_records"] += 1
                 stats[r["path"]] += 1
                 if r["stamp"] == "out":
                     stats["outside_stamp"] += 1
@@ -269,7 +347,6 @@ def to_replay(pops, hashval=None):
                 lines.append("R %d %s %s %d" % (k, r["rev"], r["idx"], vid))
                 meta.append((oi, "R", k, r))
             else:
-                lia = "-1" if r["lia_after"] == REV_MAX else r["lia_after"]
                 lines.append("M %d %s %s %s %s %s %s %s Q %s L %s %s E" % (
                     k, r["rev"], r["idx"], r["gen_in"],
                     "1" if r["result"] == "changed" else "0", r["gen"], lia, r["dur"], q,
@@ -307,7 +384,7 @@ def to_replay(pops, hashval=None):
             if len(set(seen.values())) != len(seen):
                 api_errors.append("op %d: two values share a handle" % oi)
         for ret in op["rets"]:
-            idx, gen, read = ret
+            idx, gen, read = ret[:3]
             ty = words[1] if words[0] == "intern" else words[2]
             want = words[2] if words[0] == "intern" else (words[4] if len(words) > 4 else None)
             k = ty_ing.get(ty)
@@ -328,26 +405,114 @@ def to_replay(pops, hashval=None):
     return lines, meta, stats, api_errors
 
 
+FAULT_KINDS = ("ev intern", "ev reuse", "ev validate", "ev discard", "ev exec", "ev valid",
+               "hash", "eq")
+
+
+def value_oracle(pops):
+    """Implementation-side oracles (no model, no hook records) -> (problems, panic counts).
+    Every completed `get`/`intern` returns what a fresh database returns for the current
+    inputs (the interned value itself, read through the handle at top level, inside the
+    query body, and through a second tracked function keyed by the handle); a value has one
+    handle and a handle one value within a revision; the only panics are the injected ones,
+    and only when a fault fired in that operation."""
+    problems = []
+    inputs = {}
+    by_handle, by_value = {}, {}
+    panics = {k: 0 for k in FAULT_KINDS}
+    panics["after_any_panic_requests"] = 0
+    seen_panic = False
+    for oi, op in enumerate(pops):
+        w = op["text"].split()
+        if w[0] == "set":
+            inputs[w[1]] = w[2]
+        if w[0] not in ("get", "intern"):
+            continue
+        for f in op["faults"]:
+            panics[f] = panics.get(f, 0) + 1
+        for cls, msg in op["panics"]:
+            if cls != "injected":
+                problems.append("op %d (%s): unwound with a panic that was not injected: %s"
+                                % (oi, op["text"], msg))
+            elif not op["faults"]:
+                problems.append("op %d (%s): injected panic although no fault fired" % (oi, op["text"]))
+        if op["faults"] and not op["panics"]:
+            problems.append("op %d (%s): the fault fired but the panic did not reach the caller"
+                            % (oi, op["text"]))
+        if not op["panics"] and not op["rets"]:
+            problems.append("op %d (%s): no result" % (oi, op["text"]))
+        if w[0] == "intern":
+            ty, want = w[1], w[2]
+        elif w[1] in ("dyn", "dynuse", "dynread"):
+            ty, want = w[2], inputs.get(w[3], "0")
+        else:
+            ty, want = w[2], w[4]
+        for ret in op["rets"]:
+            if seen_panic:
+                panics["after_any_panic_requests"] += 1
+            idx, gen, read = ret[:3]
+            names = ("field read through the returned handle", "value of the tracked function "
+                     "keyed by the handle", "field read inside the query")
+            for name, got in zip(names, [read] + ret[3:5]):
+                if got != want:
+                    problems.append("op %d (%s): %s is %s, a fresh database gives %s%s"
+                                    % (oi, op["text"], name, got, want,
+                                       " (after an injected panic)" if seen_panic else ""))
+            h = by_handle.setdefault((ty, op["rev"]), {})
+            v = by_value.setdefault((ty, op["rev"]), {})
+            if h.setdefault((idx, gen), want) != want:
+                problems.append("op %d (%s): handle %s:%s stands for %s and for %s in revision %s"
+                                % (oi, op["text"], idx, gen, h[(idx, gen)], want, op["rev"]))
+            if v.setdefault(want, (idx, gen)) != (idx, gen):
+                problems.append("op %d (%s): value %s has handles %s and %s:%s in revision %s"
+                                % (oi, op["text"], want, "%s:%s" % v[want], idx, gen, op["rev"]))
+        if op["panics"]:
+            seen_panic = True
+    return problems, panics
+
+
 def run_replay(lines):
     p = subprocess.run([REPLAY_BIN], input="\n".join(lines) + "\n", capture_output=True,
                        text=True, timeout=120)
     return p.returncode, p.stdout.splitlines(), p.stderr
 
 
-def check_case(ops, pinned=True, hashval=None):
-    """-> (ok, problems, stats)."""
-    rc, out, err = run_harness(ops, pinned)
+def check_case_full(ops, pinned=True, hashval=None, replay=True):
+    """-> dict(value_problems, model_problems, stats, panics).  `value_problems` come from the
+    implementation alone (value_oracle + API read-backs), `model_problems` from the replay of
+    the hook records through the extracted model."""
+    res = {"value_problems": [], "model_problems": [], "stats": {}, "panics": {}}
+    try:
+        rc, out, err = run_harness(ops, pinned)
+    except subprocess.TimeoutExpired:
+        res["value_problems"].append("the harness did not finish within 120 s (blocked)")
+        return res
     if rc != 0:
         el = err.strip().splitlines()
         msg = [l for i, l in enumerate(el) if "panicked at" in l or (i and "panicked at" in el[i - 1])]
-        return False, ["harness exit %d: %s" % (rc, " / ".join(msg) or el[-1:])], {}
+        res["value_problems"].append("harness exit %d: %s" % (rc, " / ".join(msg) or el[-1:]))
+        return res
     pops = parse_harness(out)
-    lines, meta, stats, problems = to_replay(pops, hashval)
+    vprob, panics = value_oracle(pops)
+    res["value_problems"] += vprob
+    res["panics"] = panics
+    lines, meta, stats, api = to_replay(pops, hashval)
+    res["stats"] = stats
+    problems = res["model_problems"]
+    # read-backs that contradict the linearisation are value-level facts as well, except the
+    # bookkeeping ones that need the hook records
+    for a in api:
+        pure = ("asked for" in a or "read back" in a or "two handles" in a or "share a handle" in a)
+        (res["value_problems"] if pure and "linearisation" not in a else problems).append(a)
+    if not replay:
+        return res
     rc, rout, rerr = run_replay(lines)
     if rc != 0:
-        return False, ["replay exit %d: %s" % (rc, rerr.strip())], stats
+        problems.append("replay exit %d: %s" % (rc, rerr.strip()))
+        return res
     rec_meta = [m for m in meta if m is not None]
     model_evs = {}     # (op index, ing) -> [event strings]
+    unwound = set()    # (op index, ing) of calls that unwound: events may stop early
     k = 0
     for line in rout:
         w = line.split()
@@ -358,13 +523,15 @@ def check_case(ops, pinned=True, hashval=None):
             m = rec_meta[k]
             k += 1
             if w[0] == "MISMATCH":
-                problems.append("op %d (%s) %s" % (m[0], pops[m[0]]["text"], line))
+                problems.append("op %d (%s) [%s record] %s" % (m[0], pops[m[0]]["text"], m[1], line))
                 evs = line.split("|", 1)[1].split() if "|" in line else []
             else:
                 evs = w[2:]
-            if m[1] in ("I", "M"):
+            if m[1] in ("I", "M", "U"):
                 model_evs.setdefault((m[0], m[2]), []).extend(
                     e for e in evs if e.split(":")[0] in ("intern", "reuse", "validate"))
+            if m[1] in ("U", "A"):
+                unwound.add((m[0], m[2]))
     if k != len(rec_meta):
         problems.append("replay answered %d of %d records" % (k, len(rec_meta)))
     # events
@@ -379,13 +546,26 @@ def check_case(ops, pinned=True, hashval=None):
             a, b = real.get(ing, []), model_evs.get((oi, ing), [])
             if op["text"].startswith("par "):      # events of different shards are unordered
                 a, b = sorted(a), sorted(b)
+            if (oi, ing) in unwound and a == b[:len(a)]:
+                continue                           # the callbacks after the panic never ran
             if a != b:
                 problems.append("op %d (%s) ingredient %d events: real %s model %s"
                                 % (oi, op["text"], ing, a, b))
-    return not problems, problems, stats
+    return res
 
 
-def shrink(ops, budget=150, pinned=True, hashval=None):
+def check_case(ops, pinned=True, hashval=None):
+    """-> (ok, problems, stats)."""
+    r = check_case_full(ops, pinned, hashval)
+    problems = r["value_problems"] + r["model_problems"]
+    return not problems, problems, r["stats"]
+
+
+def shrink(ops, budget=150, pinned=True, hashval=None, fails=None):
+    """Drop operations while `fails(case)` (default: any problem) stays true."""
+    if fails is None:
+        def fails(cand):
+            return not check_case(cand, pinned, hashval)[0]
     cur = list(ops)
     changed = True
     while changed and budget > 0:
@@ -394,8 +574,7 @@ def shrink(ops, budget=150, pinned=True, hashval=None):
         while i >= 1 and budget > 0:
             cand = cur[:i] + cur[i + 1:]
             budget -= 1
-            ok, _, _ = check_case(cand, pinned, hashval)
-            if not ok:
+            if fails(cand):
                 cur = cand
                 changed = True
             i -= 1
